@@ -377,7 +377,16 @@ func TryTimeout(d time.Duration, f func()) string {
 	case s := <-done:
 		return s
 	case <-time.After(d):
-		return fmt.Sprintf("timeout: call did not return within %v", d)
+	}
+	// The bound d is generous for the call itself; if it is exceeded the machine may simply be
+	// overloaded (other checks, builds). Give the call ten times as long again before it is
+	// reported as not returning, so that load alone cannot raise an alarm; a genuine endless
+	// loop or dead-lock is still reported, only later.
+	select {
+	case s := <-done:
+		return s
+	case <-time.After(10 * d):
+		return fmt.Sprintf("timeout: call did not return within %v", 11*d)
 	}
 }
 
